@@ -262,7 +262,14 @@ func c17Handle(e *Env, c *C17Case) {
 		return
 	}
 	now := Now()
-	db, err := wt.Open(c.Files[0].path(e), wt.WithoutFlock())
+	// the shared handle is opened the way a reader may: default flags, or
+	// read-only (a knob of the run)
+	opts := []wt.Option{wt.WithoutFlock()}
+	if c.SchedSeed%3 == 0 {
+		opts = append(opts, wt.WithOpenFileFlag(os.O_RDONLY))
+		e.Probe("shared-handle-opened-read-only")
+	}
+	db, err := wt.Open(c.Files[0].path(e), opts...)
 	if err != nil {
 		e.Skip("world-unreadable")
 		return
@@ -462,7 +469,11 @@ func (c17Sim) RunRace(e *Env, ci interface{}) {
 	switch c.Mode {
 	case "handle":
 		now := Now()
-		db, err := wt.Open(c.Files[0].path(e), wt.WithoutFlock())
+		opts := []wt.Option{wt.WithoutFlock()}
+		if c.SchedSeed%3 == 0 {
+			opts = append(opts, wt.WithOpenFileFlag(os.O_RDONLY))
+		}
+		db, err := wt.Open(c.Files[0].path(e), opts...)
 		if err != nil {
 			return
 		}
